@@ -44,6 +44,8 @@ def configs(tier):
     # (f) a path that gets no worker (an empty file) named BEFORE the sources: PathIds and worker indexes then differ;
     # the last source still has more messages than a channel holds when the short one finishes
     c["gap"] = ([("e.log", b""), ("s.wtmp", wt([(1, 0, "S1")])), ("l.wtmp", wt([(10 + i, 0, "L%d" % i) for i in range(9)]))], [])
+    # (g) coloured output: the colour given to each file is part of stdout and may not depend on the schedule either
+    c["color2"] = ([("a.wtmp", wt([(5, 0, "A1"), (7, 0, "A2")])), ("b.log", tx([(5, 0, "b1"), (6, 0, "b2")]))], ["--color=always"])
     if tier == "thorough":
         c["ties3"] = ([("a.wtmp", wt([(5, 0, "A1")])), ("b.wtmp", wt([(5, 0, "B1")])), ("c.wtmp", wt([(5, 0, "C1")]))], [])
         c["three"] = ([("a.wtmp", wt([(1, 0, "A1"), (4, 0, "A2")])), ("b.wtmp", wt([(2, 0, "B1"), (4, 0, "B2")])),
@@ -60,7 +62,10 @@ def build_config(work, name, files, extra, **kw):
     for fn, data in files:
         common.write_file(os.path.join(d, fn), data)
     names = [fn for fn, _ in files]
-    args = list(oracle.DEC_ARGS) + ["-t", "+00:00"] + list(extra) + names
+    color = "--color=always" in extra
+    extra = [e for e in extra if e != "--color=always"]
+    dec = [("always" if (color and a == "never") else a) for a in oracle.DEC_ARGS]
+    args = dec + ["-t", "+00:00"] + list(extra) + names
     # workers exist only for sources that are opened, in argument order (a zero-length file gets none)
     cfg = sched.Config(name, d, args, [fn for fn, data in files if data], **kw)
     per_source = []
@@ -108,6 +113,17 @@ def run(tier, seed, build=True):
                         {"engine": "E-CLI", "config": name, "args": cfg.args, "files": {fn: common.b64(data) for fn, data in files}, "expected_stdout": common.b64(expected)})
                     continue
                 raise common.MachineryError("default schedule of %s left no trace: rc=%s %r" % (name, x0.rc, x0.err[-300:]))
+            if "--color=always" in extra:
+                # every schedule must print the bytes of the default schedule, escape
+                # sequences included; without them these are the reference merge
+                import c13
+                if c13.ESC.sub(b"", x0.out) != expected:
+                    res.count()
+                    res.violation({"symptom": "stdout-differs", "config": name}, "config %s: coloured output of the default schedule, escape sequences removed, is not the reference merge" % name,
+                                  {"engine": "E-SCHED", "config": name, "args": cfg.args, "sources": cfg.sources, "files": {fn: common.b64(data) for fn, data in files}, "choices": [],
+                                   "expected_stdout": common.b64(expected)})
+                    continue
+                expected = x0.out
             judge = make_judge(expected, x0.rc)
             budget = (25000, 40) if tier == "quick" else (400000, 1500)
             dmax = 2 if tier == "quick" else 3
